@@ -32,6 +32,9 @@ CHECKS = {
  'C08': dict(cat='proof', tech='deductive: bit-vector (low-64) symbolic execution of the real _murmur3/rotl64/fmix against MurmurHash.hash3_x64_128 transcribed from Cassandra, loop invariant over an uninterpreted fold of the round function; integer proofs for truncate_int64, token normalisation and the MD5 token; bounded end-to-end stand-in incl. body_and_tail',
              text='murmur3 is proved equal to Cassandra\'s hash for any number of blocks (inductive invariant) and every tail length (unrolled, complete), in low-64 mode (A-BITS); MD5/RandomPartitioner token proved over an arbitrary digest. struct-based block splitting (body_and_tail) is assumed and probed by a bounded end-to-end stand-in.',
              ref='DESIGN.md §4 C08'),
+ 'C06': dict(cat='proof', tech='deductive: v5 segment header codec over full-domain bit-vectors (byte-exact + round trip + single-bit corruption), compute_crc24 by loop invariant against Crc.crc24, segment encode/decode and connection buffer steps with callee contracts; bounded stand-in for payload CRC32 corruption',
+             text='Header encode/decode, CRC24, segment_length, segment round trip (both codecs, compressed and left-uncompressed), one step of the checksummed read path and the buffer resets are postconditions discharged for all field values / all buffered byte strings. CRC32 and the compressor are assumed (E-CRC32 probed by a bounded stand-in); chunking is verified parametrically in the chunk-size constant with bounded unrolling.',
+             ref='DESIGN.md §4 C06'),
 }
 
 NA_REASON = {}
